@@ -218,6 +218,18 @@ func c13Case(side string, interval time.Duration, threshold int, pattern string,
 	if pendingKind == "handler" && obs.closedAt < 0 && parkedDone >= 0 {
 		fail("handler-cancelled-on-live-session", "pattern %q: the session is open but the running handler's context was ended at %v", pattern, parkedDone)
 	}
+	if broke && !pending && bad == "" {
+		// the peer hung up: the session has ended by itself (Wait has returned), and keep-alive ends with
+		// it - without a Close of ours, without waiting for further ticks
+		synctest.Wait()
+		if obs.closedAt < 0 {
+			fail("session-outlives-connection", "pattern %q: the peer closed the connection but the session's Wait has not returned", pattern)
+		} else if n := runtime.NumGoroutine() - base; n > 0 {
+			buf := make([]byte, 1<<15)
+			buf = buf[:runtime.Stack(buf, true)]
+			fail("keepalive-outlives-session", "pattern %q: the peer hung up and the session ended at %v, but %d goroutine(s) are still there (no Close was called; keep-alive has nothing left to watch):\n%s", pattern, obs.closedAt, n, buf)
+		}
+	}
 	// shut down and check that nothing is left behind
 	if pending {
 		peerRWC.Close() // Close is graceful: it would wait for the outstanding call of a connected peer
@@ -423,6 +435,84 @@ func c13LateCase(side string, threshold int, pattern string) (bad, sig string) {
 	return bad, sig
 }
 
+// c13HangUpCase: the peer hangs up (closes the connection) at a moment of its own choosing, not in
+// answer to a ping.  The session ends by itself - its Wait returns - and keep-alive ends with it, at
+// once and silently: no goroutine or ticker stays behind waiting for further ticks, although nobody
+// calls Close.
+func c13HangUpCase(side string, threshold int, after time.Duration) (bad, sig string) {
+	fail := func(s, format string, a ...any) {
+		if bad == "" {
+			sig, bad = "c13 hang-up "+s, fmt.Sprintf(format, a...)
+		}
+	}
+	const interval = 4 * time.Second
+	ctx := context.Background()
+	base := runtime.NumGoroutine()
+	ct, st := NewInMemoryTransports()
+	peerRWC := ct.rwc
+	handshake := make(chan struct{})
+	go func() {
+		sc := bufio.NewScanner(peerRWC)
+		sc.Buffer(make([]byte, 1<<20), 1<<20)
+		write := func(s string) { io.WriteString(peerRWC, s+"\n") }
+		if side == "server" {
+			write(`{"jsonrpc":"2.0","id":"init","method":"initialize","params":{"protocolVersion":"2025-06-18","capabilities":{},"clientInfo":{"name":"peer","version":"1"}}}`)
+		}
+		for sc.Scan() {
+			var m struct {
+				ID     json.RawMessage `json:"id"`
+				Method string          `json:"method"`
+			}
+			if json.Unmarshal(sc.Bytes(), &m) != nil {
+				continue
+			}
+			switch {
+			case m.Method == "" && string(m.ID) == `"init"`:
+				write(`{"jsonrpc":"2.0","method":"notifications/initialized","params":{}}`)
+				close(handshake)
+			case m.Method == "initialize":
+				write(`{"jsonrpc":"2.0","id":` + string(m.ID) + `,"result":{"protocolVersion":"2025-06-18","capabilities":{},"serverInfo":{"name":"peer","version":"1"}}}`)
+			case m.Method == "ping":
+				write(`{"jsonrpc":"2.0","id":` + string(m.ID) + `,"result":{}}`)
+			}
+		}
+	}()
+	var sess c13Session
+	if side == "server" {
+		s := NewServer(&Implementation{Name: "srv", Version: "1"}, &ServerOptions{KeepAlive: interval, KeepAliveFailureThreshold: threshold, Logger: quietLogger})
+		ss, err := s.Connect(ctx, st, nil)
+		if err != nil {
+			return "connect: " + err.Error(), "c13 connect-failed"
+		}
+		sess = ss
+		<-handshake
+	} else {
+		c := NewClient(&Implementation{Name: "cli", Version: "1"}, &ClientOptions{KeepAlive: interval, KeepAliveFailureThreshold: threshold, Logger: quietLogger})
+		cs, err := c.Connect(ctx, st, &ClientSessionOptions{ProtocolVersion: "2025-06-18"})
+		if err != nil {
+			return "connect: " + err.Error(), "c13 connect-failed"
+		}
+		sess = cs
+	}
+	waited := false
+	go func() { sess.Wait(); waited = true }()
+	time.Sleep(after)
+	synctest.Wait()
+	peerRWC.Close() // the peer is gone
+	synctest.Wait()
+	switch {
+	case !waited:
+		fail("session-outlives-connection", "the peer closed the connection but the session's Wait has not returned")
+	case runtime.NumGoroutine()-base > 0:
+		buf := make([]byte, 1<<15)
+		buf = buf[:runtime.Stack(buf, true)]
+		fail("keepalive-outlives-session "+side, "the peer hung up and the session has ended (Wait returned), but %d goroutine(s) are still there although no time has passed since - keep-alive has nothing left to watch:\n%s", runtime.NumGoroutine()-base, buf)
+	}
+	sess.Close()
+	synctest.Wait()
+	return bad, sig
+}
+
 func TestVerifC13(t *testing.T) {
 	env := verifx.LoadEnv("C13")
 	res := env.NewResult()
@@ -484,6 +574,32 @@ func TestVerifC13(t *testing.T) {
 					}
 					cases.Record(idx, fmt.Sprintf("th=%d %s", th, cls), len(p)+1, desc)
 				})
+			}
+		}
+	}
+	hang := env.NewCases(res, "peer-hangs-up")
+	for _, side := range []string{"server", "client"} {
+		for _, th := range []int{1, 2, 3} {
+			for _, after := range []time.Duration{time.Second, 4 * time.Second, 5 * time.Second, 9 * time.Second} {
+				idx, mine := hang.Next()
+				if !mine {
+					continue
+				}
+				var bad, sig string
+				desc := fmt.Sprintf("side=%s threshold=%d interval=4s peer hangs up after %v", side, th, after)
+				func() {
+					defer func() {
+						if r := recover(); r != nil && bad == "" {
+							bad, sig = fmt.Sprintf("panic / bubble failure: %v", r), "c13 hang-up panic-or-leak"
+						}
+					}()
+					synctest.Test(t, func(t *testing.T) { bad, sig = c13HangUpCase(side, th, after) })
+				}()
+				if bad != "" {
+					hang.Violate(idx, sig, bad+" ["+desc+"]", 2)
+					continue
+				}
+				hang.Record(idx, "ended with the session", 2, func() string { return desc })
 			}
 		}
 	}
